@@ -13,7 +13,7 @@ from engine import Stage, Check
 
 PID = "C10"
 DEFAULT_PORTS = {443, 44330}
-PORT_POOL = [443, 44330, 8443, 4433, 9443, 853, 993, 5061, 10443, 1443, 8080, 8081]     # incl. the default target 8080 and a usual map target
+PORT_POOL = [443, 44330, 8443, 4433, 9443, 853, 993, 5061, 10443, 1443, 8080, 8081, 50000, 61000]     # incl. the default target 8080 and a usual map target
 
 
 def model(opts, sport):
@@ -91,7 +91,8 @@ def spec_strategy(draw):
         k = draw(st.sampled_from(["tls", "tls", "quic"]))
         sport = draw(st.sampled_from(PORT_POOL))
         ep = draw(strategies.endpoints(idx=i, sports=(sport,)))
-        ep["cport"] = 20000 + 1000 * i + ep["cport"] % 1000       # distinct client ports, never a server port
+        # distinct client ports, never a server port; numerically below or above the server port
+        ep["cport"] = draw(st.sampled_from([20000, 20000, 11000, 61100])) + 1000 * i + ep["cport"] % 1000
         if k == "tls":
             combos = [c for c in tlsref.all_combos() if c[0] in (0x002F, 0xC02F, 0x1301, 0x0005, 0x1303)]
             c = draw(strategies.tls_conn(combos=combos, max_records=4, max_len=200, ep=st.just(ep), shapes=False,
